@@ -605,9 +605,11 @@ func (ex *Exec) useLemmas(st *State, env *Env, prefix string) {
 			if len(dep) > 0 {
 				body = &SExpr{Kind: "binop", Op: "==>", Args: []*SExpr{conjExpr(dep), body}}
 			}
-			dn := fmt.Sprintf("lemma$%s$%d", call.Op, ex.ctx.counter["lemdef"])
+			dn := fmt.Sprintf("lemma$%s$%s$%d", strings.ReplaceAll(sanitize(ex.obName("")), ".", "_"), call.Op, ex.ctx.counter["lemdef"])
 			ex.ctx.counter["lemdef"]++
+			defsMu.Lock()
 			ex.cf.Defs[dn] = &SpecDef{Name: dn, Kind: "pred", Params: lem.Params, Body: body}
+			defsMu.Unlock()
 			q := &SExpr{Kind: "forall", Vars: u.Vars, Args: []*SExpr{{Kind: "call", Op: dn, Args: call.Args}}}
 			aenv := env.child()
 			aenv.sink = st
